@@ -471,4 +471,4 @@ RULES.append(('05.M', 'collection mutations: every reviewed (function, stored co
 RULES.append(('05.G', 'guard census: no reviewed call of a workspace function and no reviewed mutation of a stored collection gained a controlling branch condition (an added `&& cond`, early return / continue, more specific match arm in front of an act); counts per call site, name free (rules/guards.py)', lambda F: guards.for_property(F, 'C05', '05.G')))
 RULES.append(('05.W', 'field assignments: every reviewed (function, Type.field) direct assignment is still made - state that a path no longer updates, or updates only conditionally (get_or_insert for an overwrite); generalises NN.R (rules/writes.py)', lambda F: writes.for_property(F, 'C05', '05.W')))
 RULES.append(('05.X', 'error propagation: once a branch has found a Result of the function\'s own error type to be Err, no path returns Ok(..) or an unrelated value - a failed monitor write is not reported as Completed: the revocation of the old state would be released although the new state is not durable (value-refined walk, rules/errprop.py)', lambda F: errprop.rule(F, '05.X', r'util/persist\.rs$|chain/chainmonitor\.rs$', 3, exceptions={'list_paginated_with_values': 'a key removed between listing and reading is not part of the page (NotFound only; every other error is returned)', 'list': 'a directory entry that vanished between read_dir and the check is skipped / included by design', 'list_paginated_impl': 'same tolerance as list for entries deleted during the scan'})))
-RULES.append(('05.N', 'arithmetic census: per reviewed function the number of operations per (group: add/sub, mul, div, rem, shift, bit, min, max, div_ceil ...; flavour: plain / checked / saturating / wrapping) is unchanged - a dropped or added `+ 1`, a rounding direction, saturating for checked, min for max (rules/arith.py; value arithmetic itself is not decided)', lambda F: arith.for_property(F, 'C05', '05.N')))
+RULES.append(('05.N', 'arithmetic census: per reviewed function the set of operation kinds (group: add/sub, mul, div, rem, shift, bit, min, max, div_ceil ...; flavour: plain / checked / saturating / wrapping) keeps its kinds: no reviewed function lost or gained a kind of arithmetic altogether - a rounding direction (`/` for div_ceil), saturating for checked, min for max (rules/arith.py; counts and value arithmetic itself are not judged)', lambda F: arith.for_property(F, 'C05', '05.N')))
